@@ -21,6 +21,31 @@ impl RngCore for Replay {
 }
 impl CryptoRng for Replay {}
 
+// ---- heap path: what is left in a Box<key> block after an ordinary `drop(Box)`. As far as the optimiser can tell nobody
+// reads the block again, exactly as in an application, so a wipe made of ordinary stores may be removed as dead stores in
+// front of the deallocation (a custom global allocator would hide that: with one installed the stores are kept, measured).
+// The freed block is therefore read back through a laundered address. Formally that is a read of freed memory; with glibc a
+// block of this size stays mapped, and only its first 32 bytes (free-list links) are written by free(), so those are skipped.
+// A small allocation made after the key keeps the block away from the top of the heap (no trimming).
+#[inline(never)]
+fn heap_residue<T>(b: Box<T>) -> usize {
+    let n = core::mem::size_of::<T>();
+    let addr = std::hint::black_box(&*b as *const T as usize);
+    drop(b);
+    let p = std::hint::black_box(addr) as *const u8;
+    (64..n).filter(|&i| unsafe { core::ptr::read_volatile(p.add(i)) } != 0).count()
+}
+/// box the key, pin the heap top with a later allocation, drop the key
+macro_rules! heap_case {
+    ($v:expr) => {{
+        let b = Box::new($v);
+        let guard: Box<[u8; 256]> = std::hint::black_box(Box::new([0xA5u8; 256]));
+        let r = heap_residue(b);
+        drop(guard);
+        r
+    }};
+}
+
 /// drop the object in place and look at every byte of its former representation
 fn wiped<T>(v: T) -> bool {
     let n = core::mem::size_of::<T>();
@@ -29,6 +54,24 @@ fn wiped<T>(v: T) -> bool {
     unsafe { core::mem::ManuallyDrop::drop(&mut *slot) };
     (0..n).all(|i| unsafe { core::ptr::read_volatile(ptr.add(i)) } == 0)
 }
+
+/// a generator that fails every request after writing `partial` bytes, with an OS-style error code
+struct Failing {
+    partial: usize,
+    code: u32,
+}
+impl RngCore for Failing {
+    fn next_u32(&mut self) -> u32 { unimplemented!() }
+    fn next_u64(&mut self) -> u64 { unimplemented!() }
+    fn fill_bytes(&mut self, d: &mut [u8]) { unimplemented!() }
+    fn try_fill_bytes(&mut self, d: &mut [u8]) -> Result<(), rand_core::Error> {
+        for b in d.iter_mut().take(self.partial) {
+            *b = 0x3C;
+        }
+        Err(rand_core::Error::from(core::num::NonZeroU32::new(self.code).unwrap()))
+    }
+}
+impl CryptoRng for Failing {}
 
 fn probes() -> Vec<(Mode, Vec<u8>, Vec<u8>, [u8; 32])> {
     let mut v = Vec::new();
@@ -120,7 +163,36 @@ macro_rules! kat {
                 ok &= wiped(pk_g) && wiped(sk_g);
                 ok
             };
+            // the same provenances through Box + ordinary drop, inspected by the allocator
+            let heap: usize = {
+                let sk_b = sk.clone().into_bytes();
+                let pk_b = pk.clone().into_bytes();
+                let (pk_g, sk_g) = ns::KG::keygen_from_seed(&[0x5Au8; 32]);
+                [
+                    heap_case!(sk.clone()),
+                    heap_case!(pk.clone()),
+                    heap_case!(ns::PrivateKey::try_from_bytes(sk_b).unwrap()),
+                    heap_case!(ns::PublicKey::try_from_bytes(pk_b).unwrap()),
+                    heap_case!(sk.get_public_key()),
+                    heap_case!(pk_g),
+                    heap_case!(sk_g),
+                ]
+                .iter()
+                .fold(0usize, |a, &r| a.saturating_add(r))
+            };
+            // RNG failure must be reported in THIS configuration too (no key, no signature), for every entry point
+            let rngfail = {
+                let mut ok = true;
+                for (partial, code) in [(0usize, 5u32), (16, 4), (31, 11), (0, rand_core::Error::CUSTOM_START + 7)] {
+                    ok &= ns::KG::try_keygen_with_rng(&mut Failing { partial, code }).is_err();
+                    ok &= sk.try_sign_with_rng(&mut Failing { partial, code }, b"m", b"c").is_err();
+                    ok &= sk.try_hash_sign_with_rng(&mut Failing { partial, code }, b"m", b"c", &fips204::Ph::SHA512).is_err();
+                }
+                ok
+            };
             let mut line = format!("KAT {} got={} want={} zeroize={}", p.id, refmodel::hex(&refmodel::shake256(&[&got], 32)), refmodel::hex(&refmodel::shake256(&[&want], 32)), if zero { "ok" } else { "residue" });
+            line.push_str(&format!(" rngfail={}", if rngfail { "ok" } else { "not-reported" }));
+            line.push_str(&format!(" zeroize_heap={}", if heap == 0 { "ok".to_string() } else { format!("residue:{heap}") }));
             #[cfg(feature = "default-rng")]
             {
                 let r = (|| -> Result<bool, &'static str> {
